@@ -169,13 +169,13 @@ Proof. vm_compute. repeat split. Qed.
 
 (* create records the workload after the pod lock is released: RemoveNode finds the node empty and removes it *)
 Theorem refuted_create_removenode :
-  quiescent_bad W2 [(OCreate "n" "x", None); (ORemoveNode "n", None)] [0; 0; 0; 0; 0; 1; 1; 1; 1; 1; 1; 1; 0].
+  quiescent_bad W2 [(OCreate "n" "x", None); (ORemoveNode "n", None)] [0; 0; 0; 0; 0; 0; 1; 1; 1; 1; 1; 1; 1; 0].
 Proof. vm_compute. repeat split. Qed.
 
 (* ... after which listing the workloads of the application fails (GetWorkloads cannot bind the node) *)
 Example dangling_workload_unlistable :
   let '(w', _, _) := run_sched W2 (mk_threads [(OCreate "n" "x", None); (ORemoveNode "n", None)])
-                       [0; 0; 0; 0; 0; 1; 1; 1; 1; 1; 1; 1; 0] [] in
+                       [0; 0; 0; 0; 0; 0; 1; 1; 1; 1; 1; 1; 1; 0] [] in
   match exec w' 0 (CGetWl "x") with Some (_, r) => r_ok r = false | None => False end.
 Proof. vm_compute. reflexivity. Qed.
 
